@@ -5,6 +5,9 @@
    asset i, g_bn_i = sum of their burn fees. col_i = total transferred from the pool to the fee collector. *)
 From WW Require Import Prim CPSwap Slippage CP CPInst.
 From WW.Proofs Require Import ArithLemmas CPSwapProofs ListLemmas CPProofs FeesProofs.
+From WW Require Stable3Pool.
+From WW.Proofs Require Stable3PoolProofs.
+From WW.Props Require C04.
 
 (* for every history from a fresh pool: pending = charged - transferred; all-time counters = sums of charges *)
 Theorem C07_ledger_identity : forall c0 c1 f n own ops, fees_ok f -> (1 <= n)%nat ->
@@ -61,6 +64,15 @@ Theorem C07_unfixed_collect_refuted :
     (exists s2 p2, collect the_consts c07_witness = Ok (s2, p2) /\ pf0 s2 = 90 /\ res0 s2 = res0 c07_witness).
 Proof. exact collect_unfixed_refuted. Qed.
 
+(* three-asset pool (machine of the C04 development): all-time protocol fees = pending + everything ever paid to the
+   collector, burn ledger = everything ever burned, over every history of provide / withdraw / swap / collect / ramp /
+   donate / advance *)
+Theorem C07_trio_ledgers_over_histories : forall amp h f kinds n p0 l,
+  Stable3Pool.init_pool amp h f kinds n = Ok p0 -> Stable3PoolProofs.fees_nonneg f -> Forall (Stable3PoolProofs.op_ok n) l ->
+  let '(p', c', b') := Stable3PoolProofs.run_totals p0 l Stable3Pool.zero3 Stable3Pool.zero3 in
+  Stable3Pool.p_all p' = Stable3Pool.zip3 Z.add (Stable3Pool.p_fee p') c' /\ Stable3Pool.p_burn p' = b' /\ Stable3PoolProofs.pool_inv p'.
+Proof. exact WW.Props.C04.C04_ledgers_over_histories. Qed.
+
 (* non-vacuity: a history with charges on both assets, a collection that sends one entry and keeps the other *)
 Definition ex7_fees := mkFees 20000000000000000 3000000000000000 5000000000000000.
 Definition ex7_ops : list op :=
@@ -80,3 +92,4 @@ Print Assumptions C07_each_charge_exact.
 Print Assumptions C07_collect_frame.
 Print Assumptions C07_burn_leaves_circulation.
 Print Assumptions C07_unfixed_collect_refuted.
+Print Assumptions C07_trio_ledgers_over_histories.
